@@ -26,7 +26,6 @@ where
     Init,
     Seek(Inflater<R>),
     Finish(TryBuffered<Inflater<R>>),
-    Done(VirtualPosition),
 }
 
 pin_project! {
@@ -252,20 +251,11 @@ where
 
                     self.stream.replace(stream);
 
-                    if let Err(e) = self.set_block(block, pos) {
-                        self.seek_state = Some(SeekState::Init);
-                        return Poll::Ready(Err(e));
-                    }
+                    // The seek is complete. The next call starts a new one, even to the same
+                    // position: the stream may have been read from in the meantime.
+                    self.seek_state = Some(SeekState::Init);
 
-                    Some(SeekState::Done(pos))
-                }
-                SeekState::Done(p) => {
-                    if pos == p {
-                        self.seek_state = Some(SeekState::Done(pos));
-                        return Poll::Ready(Ok(pos));
-                    } else {
-                        Some(SeekState::Init)
-                    }
+                    return Poll::Ready(self.set_block(block, pos).map(|()| pos));
                 }
             };
         }
